@@ -11,8 +11,9 @@ Monitors (pure Python, own BTP-U reader/writer, nothing from the repository): ev
 segment data by index = bundle, indices 0..n-1, only the last is a TransferEnd, declared lengths =
 actual; every frame the agent builds decodes to the same messages and re-encodes to itself;
 exactly one queued copy once every segment has arrived, nothing before.
-Endless generator = D23 (`C20:mtu-too-small-nonterminating`), end index 0 = D24
-(`C20:end-index-zero-never-completes`); a step bound keeps the check from hanging.
+An MTU too small to segment must fail with nothing sent. An endless generator would be reported as
+`C20:mtu-too-small-nonterminating`, a one-segment transfer that is not queued as
+`C20:end-index-zero-never-completes`; a step bound keeps the check from hanging.
 '''
 import itertools
 import json
@@ -24,8 +25,7 @@ import boot
 
 CHANS = [('eth0', '02-00-00-00-00-02', '02-00-00-00-00-01'), ('eth0', '02-00-00-00-00-03', '02-00-00-00-00-01'),
          ('eth1', '02-00-00-00-00-02', '02-00-00-00-00-01')]
-# witnesses of Props/C20.lean counterexamples
-WITNESS_SEND = {'kind': 'send', 'xfer': 0, 'data': '9f0102030405060708090a0b0c0dff', 'mtu': 18}
+
 # ---------------------------------------------------------------- independent BTP-U (monitors)
 def mk_frame(mtype, hints, payload, flags=None, length=None, hflags=None):
     hb = b''
@@ -73,11 +73,6 @@ def rd_frames(buf):
     return out, bytes(buf[p:])
 
 
-# witness of C20_reasm_counterexample: the only segment of transfer 5 is TransferEnd index 0, data 9f01ff
-WITNESS_END0 = {'kind': 'recv', 'frames': [{'chan': list(CHANS[0]), 'hex': seg_frame(3, 5, 0, True, bytes.fromhex('9f01ff')).hex()}],
-                'bundles': [[list(CHANS[0]), 5, '9f01ff']], 'end0': True}
-
-
 # ---------------------------------------------------------------- the implementation under test
 class Hang(Exception):
     pass
@@ -122,19 +117,62 @@ class Rig(object):
         return self.ba.Agent(cfg, bus_kwargs=dict(conn=None, object_path='/y'))
 
     def send(self, xfer, data, mtu, bound):
-        ''' → (frames, endless?) taking at most `bound` frames from the generator '''
+        ''' iterate _send_transfer(item), at most `bound` frames →
+        ('ok', frames) | ('failed', exception class, frames before it) | ('endless', frames) | ('cpu', None) '''
         ag = self.agent(mtu)
         item = self.ba.BundleItem(address='02-00-00-00-00-09', file=BytesIO(data), transfer_id=xfer, total_length=len(data))
+        out = []
 
         def take():
             gen = ag._send_transfer(item)
-            out = [bytes(f) for f in itertools.islice(gen, bound)]
-            more = next(gen, None) is not None
-            return out, more
+            for f in itertools.islice(gen, bound):
+                out.append(bytes(f))
+            return next(gen, None) is not None
         try:
-            return guarded(take, 60.0)
+            more = guarded(take, 60.0)
         except Hang:
-            return None, None      # inconclusive: CPU bound hit before the step bound
+            return ('cpu', None)       # inconclusive: CPU bound hit before the step bound
+        except Exception as err:   # noqa: escaped exception class is the observable
+            return ('failed', type(err).__name__, out)
+        return ('endless', out) if more else ('ok', out)
+
+    def process_tx(self, xfer, data, mtu, bound):
+        ''' the transfer through _add_tx_item + _process_tx_queue with a recording socket →
+        (payloads of the Ethernet frames sent, escaped exception class or None, endless?) '''
+        ag = self.agent(mtu)
+        sent = []
+
+        class Stop(Exception):
+            pass
+
+        class FakeSock(object):
+            def send(self, frame):
+                sent.append(bytes(frame)[14:])
+                if len(sent) > bound:
+                    raise Stop()
+
+            def fileno(self):
+                return -1
+
+            def close(self):
+                pass
+
+        orig = self.ba.EthernetChannel.make_local_socket
+        self.ba.EthernetChannel.make_local_socket = lambda _self: FakeSock()
+        try:
+            item = self.ba.BundleItem(address='02-00-00-00-00-09', local_if='veth0', file=BytesIO(data), transfer_id=xfer)
+            ag._add_tx_item(item)
+            try:
+                guarded(ag._process_tx_queue, 60.0)
+            except Stop:
+                return sent, None, True
+            except Hang:
+                return sent, 'cpu', False
+            except Exception as err:   # noqa
+                return sent, type(err).__name__, False
+            return sent, None, False
+        finally:
+            self.ba.EthernetChannel.make_local_socket = orig
 
     def decode(self, data):
         ''' MessageSet(data) → canonical dict, or {'outside': True} when scapy fell back to Raw '''
@@ -275,38 +313,73 @@ def run_send(chk, rig, cases):
     reqs, obs = [], []
     for (xfer, L, m) in cases:
         data = payload(L, xfer % 7)
+        small = m is not None and L + 4 >= m and m <= 18          # independent arithmetic
         expect = 1 if (m is None or L + 4 < m) else ((L + (m - 19)) // (m - 18) if m > 18 else 0)
-        frames, more = rig.send(xfer, data, m, expect + 5 if (m is None or m > 18 or L == 0) else 50)
+        res = rig.send(xfer, data, m, expect + 5 if not small else 50)
+        ptx = rig.process_tx(xfer, data, m, expect + 5 if not small else 50) if (small or expect <= 300) and L < 2 ** 19 else None
         reqs.append({'op': 'btpu.send', 'xfer': xfer, 'data': data.hex(), **({} if m is None else {'mtu': m})})
-        obs.append((xfer, data, m, frames, more))
+        obs.append((xfer, data, m, res, small, ptx))
     answers = chk.driver(reqs) if reqs else []
-    for (xfer, data, m, frames, more), ans in zip(obs, answers):
+    for (xfer, data, m, res, small, ptx), ans in zip(obs, answers):
         rep = {'kind': 'send', 'xfer': xfer, 'data': data.hex() if len(data) <= 64 else None, 'len': len(data),
                'salt': xfer % 7, 'mtu': m}
         chk.case({'xfer': xfer, 'len': len(data), 'mtu': m}, nontrivial=True,
                  sample=(m is not None and 30 < len(data) < 300 and len(data) + 4 >= m > 18))
         chk.cov['traces_validated_against_impl'] += 1
-        if more is None:
+        if res[0] == 'cpu':
             chk.count('send:cpu-bound-hit-inconclusive')
             continue
-        if more:
+        if res[0] == 'endless':
             chk.count('send:endless')
-            if not ans.get('nonterminating'):
-                chk.corr_break('model finishes where the _send_transfer generator does not', rep)
+            chk.corr_break('the _send_transfer generator does not end (the model always does)', rep)
             chk.violation('C20:mtu-too-small-nonterminating',
-                          '_send_transfer(xfer=%d, %d octets) with mtu_default=%s: remain_size=%s <= 0, the generator yields '
-                          'frames without end (stopped after %s frames; first frames carry %s data octets)'
-                          % (xfer, len(data), m, ans.get('remain'), len(frames) if frames is not None else '?',
-                             [len(f) - 18 for f in (frames or [])[:3]]), rep)
+                          '_send_transfer(xfer=%d, %d octets) with mtu_default=%s: remain_size=%s, the generator yields '
+                          'frames without end (stopped after %d frames; first frames carry %s data octets)'
+                          % (xfer, len(data), m, ans.get('remain'), len(res[1]), [len(f) - 18 for f in res[1][:3]]), rep)
             continue
-        chk.count('send:single' if (m is None or len(data) + 4 < m) else
-                  'send:segments-%s' % ('0-1' if len(frames) <= 1 else '2-6' if len(frames) <= 6 else '7-99' if len(frames) < 100 else '100+'))
-        if ans.get('nonterminating'):
-            chk.corr_break('model does not finish where _send_transfer does', rep)
-        elif [f.hex() for f in frames] != ans.get('frames'):
-            chk.corr_break('frame lists differ (impl %d, model %d frames)' % (len(frames), len(ans.get('frames', []))), rep)
+        if res[0] == 'failed':
+            chk.count('send:failed-%s' % res[1])
+            if not ans.get('failed'):
+                chk.corr_break('_send_transfer raised %s where the model produces frames' % res[1], rep)
+            if res[2]:
+                chk.violation('C20:frames-before-failure', '%d frames were yielded before %s' % (len(res[2]), res[1]), rep)
+            if not small:
+                chk.violation('C20:send-fails-although-mtu-suffices',
+                              '_send_transfer(xfer=%d, %d octets, mtu_default=%s) raised %s although mtu > 18 or the bundle fits one PDU'
+                              % (xfer, len(data), m, res[1]), rep)
+            frames = None
+        else:
+            frames = res[1]
+            chk.count('send:single' if (m is None or len(data) + 4 < m) else
+                      'send:segments-%s' % ('0-1' if len(frames) <= 1 else '2-6' if len(frames) <= 6 else '7-99' if len(frames) < 100 else '100+'))
+            if small:
+                chk.violation('C20:mtu-too-small-not-failed', 'mtu_default=%s leaves no room for data but %d frames were produced'
+                              % (m, len(frames)), rep)
+            if ans.get('failed'):
+                chk.corr_break('model fails where _send_transfer produces %d frames' % len(frames), rep)
+            elif [f.hex() for f in frames] != ans.get('frames'):
+                chk.corr_break('frame lists differ (impl %d, model %d frames)' % (len(frames), len(ans.get('frames', []))), rep)
+        if ptx is not None:
+            sent, esc, endless = ptx
+            chk.count('tx-queue:cases')
+            if endless:
+                chk.violation('C20:mtu-too-small-nonterminating', '_process_tx_queue keeps sending frames for xfer=%d, %d octets, mtu_default=%s'
+                              % (xfer, len(data), m), rep)
+            elif esc is not None or [f.hex() for f in sent] != ans.get('sent'):
+                chk.corr_break('_process_tx_queue differs: escaped %s, %d frames sent (model %d)' % (esc, len(sent), len(ans.get('sent', []))), rep)
+            if small and (sent or esc is not None) and not endless:
+                chk.violation('C20:mtu-too-small-not-failed', 'mtu_default=%s leaves no room for data but _process_tx_queue sent %d frames / escaped %s'
+                              % (m, len(sent), esc), rep)
+        if frames is None:
+            continue
         if len(data) >= 2 ** 20 and (m is None or len(data) + 4 < m):
-            chk.count('send:length-field-wraps (outside the property: >= 2^20)')
+            # in scope of the text ("every message set the agent builds … declared lengths equal to actual lengths")
+            chk.count('send:length-field-wraps')
+            r = rd_frames(frames[0]) if frames else None
+            if r is None or len(r[0]) != 1 or r[0][0][3] != data:
+                chk.violation('C20:length-field-wraps',
+                              'a bundle of %d octets (>= 2^20) with mtu_default=%s is sent as one Bundle PDU whose 20-bit length field '
+                              'says %d: the frame does not decode to the bundle' % (len(data), m, len(data) % 2 ** 20), rep)
             continue
         for sig, what in send_monitors(xfer, data, m, frames):
             chk.violation(sig, what, rep)
@@ -499,9 +572,10 @@ def recv_scenarios(chk, rig):
     # the sender's own frames, shuffled
     for (L, m) in [(40, 30), (100, 19), (300, 100), (1500, 300), (5000, 1500), (70000, 9000)][:6 if thorough else 5]:
         data = payload(L, 3)
-        frames, _more = rig.send(9, data, m, L + 5)
-        if not frames or len(frames) < 2:
+        res = rig.send(9, data, m, L + 5)
+        if res[0] != 'ok' or len(res[1]) < 2:
             continue
+        frames = res[1]
         chunks = [f[18:] for f in frames]
         for _ in range(6 if thorough else 2):
             order = list(range(len(chunks)))
@@ -522,7 +596,7 @@ def recv_scenarios(chk, rig):
         rng.shuffle(order)
         scs.append(mk_scenario(rng, trs, order, dup=rng.choice([0, 0, 1, 3]), compose=rng.choice([0, 0.5, 0.9]),
                                pad=rng.choice([0, 0.5]), extras=rng.choice([0, 1, 2])))
-    # a peer that sends a transfer of one segment (TransferEnd with index 0): D24
+    # a peer that sends a transfer of one segment (TransferEnd with index 0)
     for L in (1, 5):
         data = payload(L, 1)
         scs.append(mk_scenario(rng, [(CHANS[0], 3, data, [data])], [(0, 0)]))
@@ -621,22 +695,6 @@ def run(chk):
         'GLib timeouts of RxTransfer entries are not fired in correspondence runs (timing is outside C20); see timer:* counters',
         'portion stub: singleton/closed/==/in on integer intervals',
     ]
-    # Lean counterexample witnesses replayed on the implementation
-    w = WITNESS_SEND
-    frames, more = rig.send(w['xfer'], bytes.fromhex(w['data']), w['mtu'], 50)
-    if more:
-        chk.violation('C20:mtu-too-small-nonterminating',
-                      'witness of C20_size_counterexample: _send_transfer(xfer=0, 15 octets) with mtu_default=18 (remain_size 0) '
-                      'yields empty TransferSeg frames without end', dict(w))
-    else:
-        chk.corr_break('the Lean C20_size_counterexample witness terminates on the implementation', dict(w))
-    outs, snaps, queue, pending, _st = rig.recv(WITNESS_END0['frames'])
-    if not queue:
-        chk.violation('C20:end-index-zero-never-completes',
-                      'witness of C20_reasm_counterexample: a transfer whose only segment is TransferEnd index 0 is never queued '
-                      '(`if xfer.got_end:` is false for 0); %d partial transfer left' % pending, dict(WITNESS_END0))
-    else:
-        chk.corr_break('the Lean C20_reasm_counterexample witness is queued by the implementation', dict(WITNESS_END0))
     run_send(chk, rig, send_cases(chk))
     run_codec(chk, rig, codec_frames(chk))
     run_recv(chk, rig, recv_scenarios(chk, rig), 'reasm')
@@ -650,16 +708,30 @@ def replay(chk, path):
     rig = Rig()
     if rep.get('kind') == 'send':
         data = bytes.fromhex(rep['data']) if rep.get('data') else payload(rep['len'], rep.get('salt', 0))
-        frames, more = rig.send(rep['xfer'], data, rep['mtu'], 50 if (rep['mtu'] is not None and rep['mtu'] <= 18) else len(data) + 5)
+        res = rig.send(rep['xfer'], data, rep['mtu'], 50 if (rep['mtu'] is not None and rep['mtu'] <= 18) else len(data) + 5)
         ans = chk.driver([{'op': 'btpu.send', 'xfer': rep['xfer'], 'data': data.hex(), **({} if rep['mtu'] is None else {'mtu': rep['mtu']})}])[0]
         print('input: transfer %d, %d octets, mtu_default=%s (remain_size %s)' % (rep['xfer'], len(data), rep['mtu'], ans.get('remain')))
-        if more:
+        print('model: %s' % ('failed' if ans.get('failed') else '%d frames' % len(ans.get('frames', []))))
+        if res[0] == 'endless':
             print('observed: the generator is still yielding after %d frames; data octets per frame: %s' % (
-                len(frames or []), [len(f) - 18 for f in (frames or [])[:5]]))
-            print('expected: frames of at most %s octets whose data concatenated by index is the bundle, or an error' % rep['mtu'])
-            print('model: %s' % ('nonterminating' if ans.get('nonterminating') else 'terminates'))
+                len(res[1]), [len(f) - 18 for f in res[1][:5]]))
             return 1
+        if res[0] == 'failed':
+            print('observed: _send_transfer raised %s after %d frames' % (res[1], len(res[2])))
+            return 0 if ans.get('failed') and not res[2] else 1
+        if res[0] == 'cpu':
+            print('observed: CPU bound hit (inconclusive)')
+            return 2
+        frames = res[1]
         print('observed: %d frames of sizes %s' % (len(frames), [len(f) for f in frames][:20]))
+        if len(data) >= 2 ** 20 and (rep['mtu'] is None or len(data) + 4 < rep['mtu']):
+            r = rd_frames(frames[0])
+            okay = r is not None and len(r[0]) == 1 and r[0][0][3] == data
+            print('frame head %s: declared length %d, actual payload %d octets' % (
+                frames[0][:4].hex(), int.from_bytes(frames[0][1:4], 'big') & 0xfffff, len(frames[0]) - 4))
+            if not okay:
+                print('MONITOR C20:length-field-wraps: the frame does not decode to the bundle')
+            return 0 if okay else 1
         viol = send_monitors(rep['xfer'], data, rep['mtu'], frames)
         for sig, what in viol:
             print('MONITOR %s: %s' % (sig, what))
@@ -671,8 +743,6 @@ def replay(chk, path):
         print('observed: outcomes %s, queue sizes %s, queue %s, partial transfers %d' % (outs, snaps, [(q['id'], q['hex'][:40]) for q in queue], pending))
         print('model: %s' % json.dumps(ans)[:600])
         viol = recv_monitors(rep, outs, snaps, queue)
-        if rep.get('end0') and 'meta' not in rep and not queue:
-            viol.append(('C20:end-index-zero-never-completes', 'expected the bundle %s to be queued once' % [b[2] for b in rep.get('bundles', [])]))
         for sig, what in viol:
             print('MONITOR %s: %s' % (sig, what))
         return 1 if viol else 0
